@@ -391,3 +391,28 @@ contract(
     ensures=CONV_ENS + ["forall(i, 0, len(x), "
                         "result[i]['x'] == Ri(x[i]['xp']))"],
 )
+
+# field ORDER of the pool rows: numpy assigns a structured value to a
+# structured slot by position, so rows whose sampling fields are not in the
+# model's order would be stored with their coordinates permuted
+AB_ARR = "Struct(b:Real,a:Real,logP:Real,logL:Real,it:Int)"
+shape("ConvModel2", {"names": "PyConst(['a', 'b'])"}, methods={
+    "batch_evaluate_log_prior": Contract(
+        "<abstract>", "ConvModel2.batch_evaluate_log_prior",
+        params={"x": AB_ARR}, trusted=True, trusted_reason="C10",
+        returns="Seq(Real)", ensures=["len(result) == len(x)"]),
+})
+shape("FlowConvert2", {
+    "use_x_prime_prior": "PyConst(False)", "_plot_pool": "Bool",
+    "model": "Obj(ConvModel2)",
+}, cls="FlowProposal")
+contract(
+    PF, "FlowProposal.convert_to_samples", variant_name="field-order",
+    props=["C09", "C01"], self_shape="FlowConvert2",
+    # the proposal works in its own parameter order (here b before a)
+    params={"x": AB_ARR, "plot": "Bool"},
+    returns="Struct(a:Real,b:Real,logP:Real,logL:Real,it:Int)",
+    ensures=["field_names(result) == ['a', 'b', 'logP', 'logL', 'it']",
+             "forall(i, 0, len(x), result['a'][i] == x['a'][i] and "
+             "result['b'][i] == x['b'][i])"],
+)
